@@ -128,19 +128,33 @@ def order(ctx, o, ps: PassShape, pt):
             o.refute(calc, fo, fo.iter, f"roots are traversed through `{src(fo.iter)}`: not in WBS order")
         else:
             o.undecided(calc, fo, fo.iter, "loop over the roots in an unrecognised form")
+    def loop_of(c):
+        """(for statement, collection expression as written, True if an index loop runs backwards)"""
+        ci = ps.call_iter(c) if hasattr(ps, 'call_iter') else None
+        if ci is None:
+            fo_ = ps.call_loop(c)
+            return (fo_, fo_.iter, False) if fo_ is not None else None
+        fo_, coll = ci
+        backwards = coll is not fo_.iter and (match("reversed($r)", fo_.iter) is not None or match("range($a, -1, -1)", fo_.iter) is not None)
+        return fo_, coll, backwards
     for c in ps.pass_calls():
-        fo = ps.call_loop(c)
-        if fo is None:
+        lo = loop_of(c)
+        if lo is None:
             o.undecided(ps.f, c, c, "recursive call outside a `for x in <collection>` loop")
             continue
-        it = ps.ex.expand(fo.iter, ps.cfg.node_of(fo))
-        if _wrapped(it) or _wrapped(fo.iter) or isinstance(it, (ast.Set, ast.SetComp)):
+        fo, coll, backwards = lo
+        it = ps.ex.expand(coll, ps.cfg.node_of(fo))
+        it = sched.strip_seq_copy(it) if hasattr(sched, 'strip_seq_copy') else it
+        if backwards:
+            o.refute(ps.f, fo, fo.iter, f"tasks are traversed by an index loop running backwards (`{src(fo.iter)}`): not in list order")
+            continue
+        if _wrapped(it) or _wrapped(coll) or isinstance(it, (ast.Set, ast.SetComp)) or match("$x[::-1]", it):
             o.refute(ps.f, fo, fo.iter, f"tasks are traversed through `{src(fo.iter)}` = `{src(it)[:60]}`: not in list order")
             continue
         if match(f"{ps.task}.children", it):
             o.site(ps.f, fo, "children in list order")
             continue
-        if pt is not None and same(fo.iter, pt['iter']):
+        if pt is not None and same(coll, pt['iter']):
             srcs = pt['sources']
             if srcs['setlike']:
                 o.refute(ps.f, fo, srcs['setlike'][0], "the dependency collection is built as a set: its iteration order (and with it "
@@ -152,9 +166,10 @@ def order(ctx, o, ps: PassShape, pt):
             continue
         o.undecided(ps.f, fo, fo.iter, "recursion over an unrecognised collection")
     # dependencies before children
-    dep_loops = [ps.call_loop(c) for c in ps.pass_calls() if ps.call_loop(c) is not None and pt is not None and same(ps.call_loop(c).iter, pt['iter'])]
-    ch_loops = [ps.call_loop(c) for c in ps.pass_calls() if ps.call_loop(c) is not None and
-                match(f"{ps.task}.children", ps.ex.expand(ps.call_loop(c).iter, ps.cfg.node_of(ps.call_loop(c))))]
+    los = [lo for lo in (loop_of(c) for c in ps.pass_calls()) if lo is not None]
+    dep_loops = [lo[0] for lo in los if pt is not None and same(lo[1], pt['iter'])]
+    ch_loops = [lo[0] for lo in los if match(f"{ps.task}.children", (sched.strip_seq_copy if hasattr(sched, 'strip_seq_copy') else (lambda x: x))(
+        ps.ex.expand(lo[1], ps.cfg.node_of(lo[0]))))]
     if dep_loops and ch_loops:
         if ps.cfg.dominates(ps.cfg.node_of(dep_loops[0]), ps.cfg.node_of(ch_loops[0])):
             o.site(ps.f, ch_loops[0], "dependencies are scheduled before the children")
